@@ -341,6 +341,11 @@ func (sc *srvScen) tableHistory(n int) {
 				if r.Intn(2) == 0 {
 					sc.failPing(kk.addr, kk.id)
 					sc.r.hist("table-event/ping-timeout")
+					if r.Intn(2) == 0 {
+						// ... and later the same contact answers another query of ours: it is alive again
+						sc.respondingNode(kk.addr, kk.id, false)
+						sc.r.hist("table-event/response-after-ping-timeout")
+					}
 				} else {
 					// the questionable-node ping is answered: under the pinged ID, another ID, the node's own or the zero ID
 					rid := kk.id
